@@ -41,6 +41,9 @@ def o1(W, ob):
         for s in cs:
             g = G.guard(s.bb)
             ok = bool(g) and all(timer_atom(c, field) for c in g) and guard_has_is(g, 'self.state', 'Running')
+            # "whenever": nothing but the once-only flag may additionally condition the event
+            eg = G.essential_guard(s.bb)
+            ok = ok and all(len(c) == 3 for c in eg)
             ob.check(ok, 'poll|%s-timer' % variant,
                      '%s is raised while Running when now > last_recv_time + %s' % (variant, field.split('.')[-1]),
                      'the guard of Event::%s in poll is %s; expected `state is Running & last_recv_time + %s < now`' % (
